@@ -91,6 +91,15 @@ CHECKS = [
           "use_argvals_stand, user weight) vs the exact Q model (np.sqrt/np.std enter as oracle values re-checked in Q); monitors of the promised "
           "effects on basis-expansion, multivariate and irregular data (both encodings).",
   "note": STD_NOTE + " Basis / multivariate / irregular variants are monitored on the implementation, not modelled."},
+ {"id": "C14",
+  "text": "Theorems: evaluation of a basis expansion on its grid is linear in the coefficients and commutes with the mean, with centring, with "
+          "scaling, and with inner products / norms through the basis Gram matrix (c G c' = <to_grid c, to_grid c'>); zero-penalty spline "
+          "expansion returns the coefficients of a curve of the spline space (with C05 uniqueness); the dense long table has n*m entries and "
+          "entry i*m+j is (observation i, point j, value): every pair exactly once, row-major; CSV rows keep exactly their present cells in "
+          "order at their abscissae, and the table is dense iff no cell is missing. Tie: BasisFunctionalData (4 families, 1-D and 2-D) "
+          "to_grid / inner_product vs the exact Q model, every statistic on the expansion vs on the evaluated curves (two quadrature rules in "
+          "sequence on the same object), to_basis vs PS smoothing, exact recovery in the spline space, long tables, read_csv on generated files.",
+  "note": STD_NOTE + " Partial: covariance commutation up to n/(n-1) is checked by correspondence only (C14_cov_commutes_partial)."},
  {"id": "C18",
   "text": "Theorems: Cox-de Boor B-splines of ANY degree on ANY strictly increasing knot sequence are non-negative, vanish outside "
           "[t_j, t_{j+p+1}), have at most p+1 non-zero members at a point and sum to one on [t_{lo+p}, t_{lo+n}] INCLUDING the right end point "
